@@ -281,6 +281,20 @@ func (s *SwapStateMachine) Recover() (bool, error) {
 		return false, fmt.Errorf("unknown state: %s for swap %s", s.Current, s.SwapId.String())
 	}
 
+	if s.Current == Default {
+		// SendEvent stores the record before the first transition, so a crash
+		// while the first action runs leaves a swap in the default state.
+		// Nothing has been sent or locked yet: finish it as canceled instead
+		// of keeping it (and its channel) active after every restart.
+		s.Data.CancelMessage = "swap was not started before the restart"
+		s.Previous = s.Current
+		s.setState(State_SwapCanceled)
+		s.Data.SetState(State_SwapCanceled)
+		if err := s.swapServices.swapStore.UpdateData(s); err != nil {
+			return false, err
+		}
+		return true, nil
+	}
 	if !ok || state.Action == nil {
 		// configuration error
 		return false, ErrFsmConfig
